@@ -53,9 +53,9 @@ CHECKS = {
    design='§7 C06'),
  'C07': dict(
    technique='Coq proof (order laws on structured treespecs) + three-way correspondence/oracle (flatten_up_to, is_prefix, prefix_errors) against the tree-level model',
-   text='Theorems: TWO OF THE THREE DECIDERS AGREE — for any two trees flattened under one configuration (no predicate), flatten_up_to of the first treespec on the second tree succeeds exactly when the first treespec is_prefix of the second (C07_flatten_up_to_iff_is_prefix: all node kinds, permuted and mixed dict kinds, registered / unregistered custom classes, None as node or leaf; also for arbitrary treespecs of the configuration); the prefix relation on structured treespecs is transitive with no side condition (C07_prefix_trans), is_prefix is transitive whenever the outer namespaces are compatible and refuted otherwise (\'a\' <= \'\' <= \'b\'); every treespec flatten produces satisfies the side conditions of the order theorems (C07_flatten_gives_good_treespecs); flatten_up_to of a tree by its own treespec returns exactly its leaves (C07_flatten_up_to_self: FlattenUpTo meets flatten); is_prefix is reflexive and never strictly so on itself; a leaf is a prefix of everything; a < b iff a <= b and some leaf of a is a non-leaf of b; prefixes need equal none_is_leaf and compatible namespaces. '
+   text='Theorems: TWO OF THE THREE DECIDERS AGREE — for any two trees flattened under one configuration (no predicate), flatten_up_to of the first treespec on the second tree succeeds exactly when the first treespec is_prefix of the second (C07_flatten_up_to_iff_is_prefix: all node kinds, permuted and mixed dict kinds, registered / unregistered custom classes, None as node or leaf; also for arbitrary treespecs of the configuration); the prefix relation on structured treespecs is transitive with no side condition (C07_prefix_trans), is_prefix is transitive whenever the outer namespaces are compatible and refuted otherwise (\'a\' <= \'\' <= \'b\'); every treespec flatten produces satisfies the side conditions of the order theorems (C07_flatten_gives_good_treespecs); THE PARTITION — on success every returned subtree flattens and the leaves of the returned subtrees together are a permutation of the tree\'s leaves (C07_flatten_up_to_partitions; a permutation because the treespec\'s dict nodes may list the keys in another order than the tree\'s own flatten visits them), and the i-th returned subtree is what the i-th path of the treespec resolves to in the tree (C07_flatten_up_to_by_paths, side conditions proved for flattened treespecs); flatten_up_to of a tree by its own treespec returns exactly its leaves (C07_flatten_up_to_self: FlattenUpTo meets flatten); is_prefix is reflexive and never strictly so on itself; a leaf is a prefix of everything; a < b iff a <= b and some leaf of a is a non-leaf of b; prefixes need equal none_is_leaf and compatible namespaces. '
         'The run compares is_prefix (both directions, strict and not) and flatten_up_to with the model on derived pairs (true suffixes, dict-kind/key-order/maxlen variations, one-edit near misses, unrelated) and checks on the implementation: three-way agreement with prefix_errors, only ValueError, the partition of leaves, subtree-at-path, converses, transitivity on chains.',
-   note=TB + 'PARTIAL: antisymmetry up to dict equivalence, the leaf partition for a proper prefix (proved only for a treespec applied to its own tree: C07_flatten_up_to_self) and the agreement with the third decider, the Python prefix_errors, are NOT proved in Coq; they are decided by the differential run (tree-level model vs the C++ index walks incl. the sibling re-ordering block, and the Python prefix_errors).',
+   note=TB + 'PARTIAL: antisymmetry up to dict equivalence and the agreement with the third decider, the Python prefix_errors, are NOT proved in Coq; they are decided by the differential run (tree-level model vs the C++ index walks incl. the sibling re-ordering block, and the Python prefix_errors).',
    design='§7 C07'),
  'C09': dict(
    technique='Coq proof (the join is the LEAST upper bound in the prefix order: upper bound and minimality, each by induction over treespecs with key-aligned dict children; node-level laws) + extracted-model correspondence of full result arrays and of the Python broadcast family + lattice-law oracle',
